@@ -5,6 +5,21 @@
  * std::atomic<size_t> members are plain size_t (R10, shims/iora_atomic.h: sequential semantics only). */
 typedef struct { size_t _capacity; size_t _mask; uint64_t *_buffer; size_t _head; size_t _tail; } DynamicRingBuffer;
 
+/* R10 ghost: memory order of the last load (G_ld) / store (G_st) of each atomic member in the current operation (shims/iora_atomic.h) */
+struct { int _head, _tail; } G_ld, G_st;
+/* Ordering DISCIPLINE hooks (checked only in the mo_discipline proofs, which define IORA_MO_DISCIPLINE):
+ *   MO1 a producer operation writes a slot only after loading _tail with acquire (or stronger) in the same operation
+ *   MO2 a consumer operation reads a slot only after loading _head with acquire (or stronger) in the same operation
+ * These are SUFFICIENT SYNTACTIC conditions for a happens-before edge between the two sides' accesses to one slot under the SPSC
+ * usage contract; they do not decide data-race freedom under the C++ memory model (see NOTES.md, finding M1). */
+#ifdef IORA_MO_DISCIPLINE
+#define IORA_SLOT_WRITE(i) (__CPROVER_assert(IORA_MO_IS_ACQUIRE(G_ld._tail), "MO1 a slot is written only after an acquire load of _tail in the same operation (else the overwrite races with the consumer's read of that slot)"), (i))
+#define IORA_SLOT_READ(i) (__CPROVER_assert(IORA_MO_IS_ACQUIRE(G_ld._head), "MO2 a slot is read only after an acquire load of _head in the same operation"), (i))
+#else
+#define IORA_SLOT_WRITE(i) (i)
+#define IORA_SLOT_READ(i) (i)
+#endif
+
 /* ghost witness indices (unconstrained globals: a clause proved for arbitrary GI/GJ holds for every index) */
 size_t GI;   /* a LOGICAL index: the i-th item ever pushed lives at _buffer[i & _mask] while _tail <= i < _head */
 size_t GJ;   /* an offset into a batch array / into the resized buffer */
